@@ -328,10 +328,12 @@ class Interp:
                 return TOP if t is TOP else (0 if t else 1)
             if not isinstance(v, int):
                 return TOP
-            if op == "-":
-                return -v
-            if op == "~":
-                return ~v
+            if op in ("-", "~"):
+                r = -v if op == "-" else ~v
+                # the result has the (promoted) operand type: an unsigned one wraps (~(uint64_t)0 is 2^64-1, not -1)
+                if isinstance(r, int) and e.get("w"):
+                    r = wrap(r, e["w"], e.get("sg", True))
+                return r
             if op == "+":
                 return v
             return TOP
@@ -791,6 +793,20 @@ def inline_model(prog, names, fallback=None, depth=0):
         return TOP
 
     return model
+
+
+def unit_helpers(prog, fn, exclude=(), statics_only=True):
+    """Names of the file-local (static) functions of fn's unit that fn reaches through direct calls: the helpers a table evaluates
+    together with fn, so that moving a loop or a formula into a helper of the same file does not change what the table sees."""
+    out, work = set(), [fn]
+    while work:
+        g = work.pop()
+        for b, i, c in g.calls():
+            for h in prog.functions.get(c.get("fn") or "", []):
+                if (h.static or not statics_only) and h.unit == fn.unit and h.name not in out and h.name not in exclude and h is not fn:
+                    out.add(h.name)
+                    work.append(h)
+    return out
 
 
 def succeed_model(prog, overrides=None, fallback=None):
